@@ -54,7 +54,12 @@ def configs(tier):
     combos = [(2, 2, 2), (2, 3, 2), (3, 2, 2)] if tier == "quick" else \
         [(2, 2, 2), (2, 3, 2), (3, 2, 2), (2, 3, 3), (3, 3, 3), (3, 3, 2), (4, 2, 2), (2, 4, 4), (2, 4, 2)]
     for ncpu, levelmax, lmax in combos:
-        out.append(dict(kind="cpulist", ncpu=ncpu, levelmax=levelmax, lmax=lmax, _split=5, _noshadow=True, max_paths=40000, budget_s=2400))
+        out.append(dict(kind="cpulist", ncpu=ncpu, levelmax=levelmax, lmax=lmax, keys="symbolic", _split=5, _noshadow=True, max_paths=40000,
+                        budget_s=2400))
+    # the covering of the box by the search cubes does not depend on the key table: concrete keys, deeper levels
+    for levelmax, lmax in ([(3, 3), (4, 3)] if tier == "quick" else [(3, 3), (4, 3), (4, 4), (5, 4)]):
+        out.append(dict(kind="cpulist", ncpu=2, levelmax=levelmax, lmax=lmax, keys="concrete", _split=5, _noshadow=True, max_paths=40000,
+                        budget_s=2400))
     for levelmax in (2, 3):
         for form in ("gt", "lt", "between"):
             for axes in ("x", "xy", "z"):
@@ -131,9 +136,13 @@ def _cpulist(m, cfg):
     ncpu, levelmax, lmax = cfg["ncpu"], cfg["levelmax"], cfg["lmax"]
     tag = f"cpulist:ncpu{ncpu}:L{levelmax}:l{lmax}"
     top = 8 ** (levelmax + 1)
-    keys = [0] + [m.int(f"key{i}", lo=1, hi=top - 1) for i in range(1, ncpu)] + [top]
-    for a, b_ in zip(keys, keys[1:]):
-        m.assume(m.lt(a, b_))
+    if cfg.get("keys", "symbolic") == "symbolic":
+        keys = [0] + [m.int(f"key{i}", lo=1, hi=top - 1) for i in range(1, ncpu)] + [top]
+        for a, b_ in zip(keys, keys[1:]):
+            m.assume(m.lt(a, b_))
+    else:
+        keys = [top * i // ncpu for i in range(ncpu + 1)]
+    tag += ":" + cfg.get("keys", "symbolic")
     bb, B_ = {}, {}
     for ax in "xyz":
         lo, hi = m.real(ax + "min", lo=0.0, hi=1.0), m.real(ax + "max", lo=0.0, hi=1.0)
